@@ -100,6 +100,7 @@ type c01Gen struct {
 	preds []c01Pred
 	nvars int // variables of the clause under construction
 	pvar  int // share (percent) of variables among generated argument terms
+	used  bool // the helper predicates or/2 and/2 or2/2 and2/2 are called
 }
 
 func (g *c01Gen) newVar() *gt { g.nvars++; return gVar(g.nvars - 1) }
@@ -238,9 +239,23 @@ func (g *c01Gen) goal(from, d int) *gt {
 			return gApp("call", append([]*gt{refMk(f, as[:cut])}, as[cut:]...)...)
 		}
 	default:
-		// a goal passed through a variable
+		// goals and control constructs passed through variables that are bound only at call time
 		v := g.newVar()
-		return gConj(gApp("=", v, g.goal(from, 0)), refCall1(v))
+		g.used = true
+		switch g.r.Intn(6) {
+		case 0:
+			return gConj(gApp("=", v, g.goal(from, 0)), refCall1(v))
+		case 1:
+			return gConj(gApp("=", v, gApp(",", g.goal(from, 0), g.goal(from, 0))), refCall1(gApp(",", v, g.goal(from, 0))))
+		case 2:
+			return gConj(gApp("=", v, gApp(";", g.goal(from, 0), g.goal(from, 0))), refCall1(gApp(";", v, g.goal(from, 0))))
+		case 3:
+			return gApp(pick(g.r, []string{"or", "or2"}), g.goal(from, 1), g.goal(from, 0))
+		case 4:
+			return gApp(pick(g.r, []string{"and", "and2"}), g.goal(from, 1), g.goal(from, 0))
+		default:
+			return gConj(gApp("=", v, gApp(";", g.goal(from, 0), g.goal(from, 0))), gApp(",", v, g.goal(from, 0)))
+		}
 	}
 }
 
@@ -357,13 +372,18 @@ func genC01Answers(r *rand.Rand, n int, tier string) []string {
 	var st genStats
 	g := &c01Gen{r: r}
 	for len(out) < n {
+		g.used = false
 		prog := g.program()
 		// several queries per program
 		for k := 0; k < 3 && len(out) < n; k++ {
 			q := g.query()
 			max := pick(r, []int{1, 2, 3, 5, 8, 8, 8, 12})
-			if st.screen(prog, q, max) {
-				out = append(out, answersPayload(max, q, prog))
+			full := prog
+			if g.used {
+				full = append(append([]*gt{}, prog...), ctlHelpers...)
+			}
+			if st.screen(full, q, max) {
+				out = append(out, answersPayload(max, q, full))
 			}
 		}
 	}
@@ -374,6 +394,17 @@ func genC01Answers(r *rand.Rand, n int, tier string) []string {
 // ---------------------------------------------------------------------------
 // c03.answers: control skeletons
 // ---------------------------------------------------------------------------
+
+// control constructs reached through variables that are bound only at call time:
+//   or(A,B) :- call((A;B)).   and(A,B) :- call((A,B)).   or2(A,B) :- A ; B.   and2(A,B) :- A, B.
+// or((C -> T), E) must behave as if-then-else (the body of call/1 is inspected when it is called),
+// or2((C -> T), E) as the disjunction of call((C -> T)) and call(E) (the clause was split when stored).
+var ctlHelpers = []*gt{
+	gApp(":-", gApp("or", gVar(0), gVar(1)), refCall1(gApp(";", gVar(0), gVar(1)))),
+	gApp(":-", gApp("and", gVar(0), gVar(1)), refCall1(gApp(",", gVar(0), gVar(1)))),
+	gApp(":-", gApp("or2", gVar(0), gVar(1)), gApp(";", gVar(0), gVar(1))),
+	gApp(":-", gApp("and2", gVar(0), gVar(1)), gApp(",", gVar(0), gVar(1))),
+}
 
 var c03Facts = []*gt{
 	gApp("a", gInt(1)), gApp("a", gInt(2)), gApp("a", gInt(3)),
@@ -398,6 +429,7 @@ type c03Gen struct {
 	local   int  // next unused local variable
 	recPred bool // the program has the recursive predicate u/2
 	inU     bool // building a clause of u/2 (the recursive call is available)
+	used    bool // the helper predicates or/2 and/2 or2/2 and2/2 are called
 }
 
 func (g *c03Gen) xy() *gt { return gVar(g.r.Intn(2)) }
@@ -472,6 +504,9 @@ func (g *c03Gen) item(d int, opaque bool) *gt {
 		return g.simple()
 	}
 	cutIn := opaque && g.r.Intn(3) > 0 // a cut inside a nested branch / left-nested conjunction
+	if g.r.Intn(5) == 0 {
+		return g.viaVar(d, cutIn)
+	}
 	switch k := g.r.Intn(100); {
 	case k < 22:
 		return refCall1(g.seq(d-1, true)) // call/1 with a cut inside: local by definition
@@ -495,6 +530,71 @@ func (g *c03Gen) item(d int, opaque bool) *gt {
 			return gConj(gApp("findall", g.xy(), g.seq(d-1, true), l), gApp("=", gVar(g.marker-1), l))
 		}
 		return gApp("findall", g.xy(), g.seq(d-1, true), l)
+	}
+}
+
+// a condition that succeeds most of the time (so that wrongly running an else branch shows)
+func (g *c03Gen) cond() *gt {
+	switch g.r.Intn(6) {
+	case 0:
+		return gAtom("true")
+	case 1:
+		return gApp("==", g.xy(), gInt(int64(1+g.r.Intn(2))))
+	case 2:
+		return gAtom("fail")
+	default:
+		return gApp(pick(g.r, []string{"a", "b"}), g.xy())
+	}
+}
+
+// a goal that publishes that it ran
+func (g *c03Gen) trace(d int) *gt {
+	if g.marker <= c03M2 {
+		g.marker++
+		return gApp("=", gVar(g.marker-1), gInt(int64(10*g.clause+g.r.Intn(10))))
+	}
+	return gApp("=", g.xy(), gInt(int64(1+g.r.Intn(3))))
+}
+
+// control constructs that reach ; , -> through a variable bound at call time
+func (g *c03Gen) viaVar(d int, cutIn bool) *gt {
+	g.used = true
+	ifThen := gApp("->", g.cond(), g.trace(d))
+	els := g.trace(d)
+	if g.r.Intn(3) == 0 {
+		els = g.seq(d-1, cutIn)
+	}
+	newV := func() *gt { g.local++; return gVar(g.local - 1) }
+	switch g.r.Intn(11) {
+	case 0:
+		return gApp("or", ifThen, els) // if-then-else assembled inside call/1
+	case 1:
+		return gApp("or2", ifThen, els) // disjunction of a stored clause: call((C -> T)) ; call(E)
+	case 2:
+		v := newV()
+		return gConj(gApp("=", v, ifThen), refCall1(gApp(";", v, els)))
+	case 3:
+		v := newV()
+		return gConj(gApp("=", v, ifThen), gApp(";", v, els)) // ;/2 reached as a goal with its left argument bound by now
+	case 4:
+		v := newV()
+		return gConj(gApp("=", v, g.seq(d-1, cutIn)), refCall1(gApp(",", v, g.simple())))
+	case 5:
+		return gApp(pick(g.r, []string{"and", "and2"}), g.seq(d-1, cutIn), g.simple())
+	case 6:
+		v, l := newV(), newV()
+		return gConj(gApp("=", v, ifThen), gApp("findall", g.xy(), gApp(";", v, els), l))
+	case 7:
+		v := newV()
+		return gConj(gApp("=", v, ifThen), gApp("\\+", gApp(";", v, gAtom("fail"))))
+	case 8:
+		v := newV()
+		return gConj(gApp("=", v, ifThen), gApp("catch", gApp(";", v, els), newV(), gAtom("true")))
+	case 9:
+		v := newV()
+		return gConj(gApp("=", v, gApp(";", g.seq(d-1, cutIn), g.simple())), refCall1(gApp(";", v, els)))
+	default:
+		return gApp("or", g.seq(d-1, cutIn), els)
 	}
 }
 
@@ -528,6 +628,15 @@ func (g *c03Gen) body() *gt {
 }
 
 func (g *c03Gen) program() []*gt {
+	prog := g.program1()
+	if g.used {
+		prog = append(prog, ctlHelpers...)
+	}
+	return prog
+}
+
+func (g *c03Gen) program1() []*gt {
+	g.used = false
 	g.recPred = g.r.Intn(3) == 0
 	prog := append([]*gt{}, c03Facts...)
 	nc := 1 + g.r.Intn(3)
@@ -859,7 +968,48 @@ func (g *c04Gen) catchGoal(d int) *gt {
 	return gApp("catch", goal, c, rec)
 }
 
+// the goal of a catch/3 exits leaving a choice point, the continuation fails, execution re-enters
+// the goal, and the goal THEN throws a ball the catcher matches (the catch must be active again);
+// optionally inside an outer catch/3 that must not get the ball
+func (g *c04Gen) redoThrow() *gt {
+	x := g.xy()
+	ball, catcher := gAtom("oops"), gAtom("oops")
+	switch g.r.Intn(4) {
+	case 0:
+		ball, catcher = gApp("bb", x), gApp("bb", g.newLocal())
+	case 1:
+		ball, catcher = gApp("bb", gInt(2)), g.newLocal()
+	case 2:
+		ball, catcher = gAtom("b1"), pick(g.r, []*gt{gAtom("b1"), gAtom("b2")})
+	}
+	var goal *gt
+	k := int64(2 + g.r.Intn(2))
+	switch g.r.Intn(4) {
+	case 0:
+		goal = gApp(";", gApp("=", x, gInt(1)), gApp("throw", ball))
+	case 1:
+		goal = gConj(gApp("a", x), refITE(gApp("==", x, gInt(k)), gApp("throw", ball), gAtom("true")))
+	case 2:
+		goal = gConj(gApp("member", x, gList([]*gt{gInt(1), gInt(2), gInt(3)}, gAtom("[]"))), gApp(";", gApp("==", x, gInt(1)), gApp("throw", ball)))
+	default:
+		goal = gApp(";", gApp("b", x), gConj(gApp("=", x, gInt(7)), gApp("throw", ball)))
+	}
+	g.mark++
+	rec := pick(g.r, []*gt{gApp("=", x, gAtom("caught")), gApp("=", gVar(c04R), gApp("r", gInt(int64(g.mark)))), gAtom("true"), gAtom("fail")})
+	c := gApp("catch", goal, catcher, rec)
+	if g.r.Intn(2) == 0 {
+		g.mark++
+		c = gApp("catch", c, g.newLocal(), gApp("=", gVar(c04R), gApp("outer", gInt(int64(g.mark)))))
+	}
+	// the continuation rejects the first answer(s) of the goal
+	test := pick(g.r, []*gt{gApp("\\==", x, gInt(1)), gApp("==", x, gInt(k)), gApp("==", x, gInt(3)), gApp("==", x, gAtom("caught")), gAtom("fail")})
+	return gConj(c, test)
+}
+
 func (g *c04Gen) body(d int) *gt {
+	if g.r.Intn(6) == 0 {
+		return g.redoThrow()
+	}
 	n := 1 + g.r.Intn(2) + g.r.Intn(2)
 	forced := g.r.Intn(n) // every body has a catch/3 among its direct conjuncts
 	var gs []*gt
